@@ -246,6 +246,32 @@ func C05(c *core.Ctx) {
 			jobs = append(jobs, job{id: id, base: b, lay: lay, valued: false, desc: fmt.Sprintf("wide base %d run %d: %d files x %d fresh commodities", hb, v, nparts, ncom)})
 		}
 	}
+	// wide and nested include trees (every file of the first level includes files of its own) and a deep binary
+	// tree, each compared with the same directives in one file
+	for _, mk := range []func() (*kj.Layout, int){
+		func() (*kj.Layout, int) { return kj.WideTree(12, 3) },
+		func() (*kj.Layout, int) { return kj.WideTree(9, 9) },
+		func() (*kj.Layout, int) { return kj.DeepTree(6) },
+	} {
+		lay, _ := mk()
+		var flat strings.Builder
+		for _, p := range lay.Order {
+			for _, ln := range strings.Split(lay.Files[p], "\n") {
+				if !strings.HasPrefix(ln, "include ") {
+					flat.WriteString(ln + "\n")
+				}
+			}
+			flat.WriteString("\n")
+		}
+		// the root's opens come first in Order only for WideTree; render them first in any case
+		base := &kj.Layout{Root: "main.knut", Files: map[string]string{"main.knut": "2020-01-01 open Assets:A\n2020-01-01 open Equity:Equity\n\n" + strings.ReplaceAll(strings.ReplaceAll(flat.String(), "2020-01-01 open Assets:A\n", ""), "2020-01-01 open Equity:Equity\n", "")}, Order: []string{"main.knut"}}
+		bases = append(bases, base)
+		valuedOf = append(valuedOf, false)
+		for v := 0; v < c.Pick(2, 5); v++ {
+			id++
+			jobs = append(jobs, job{id: id, base: len(bases) - 1, lay: lay, valued: false, desc: fmt.Sprintf("wide base: nested include tree of %d files, run %d", len(lay.Order), v)})
+		}
+	}
 	ids := map[string]int{}
 	baseObs := make([]c05Obs, len(bases))
 	for b := range bases { // sequential: ids map is shared
